@@ -645,6 +645,12 @@ impl<'a, S: Sut> Runner<'a, S> {
                 if acc.sub {
                     self.st.hit(Pr::sp_sub);
                 }
+                if let Some(n) = crate::sut::px_width(qt, &acc.ops) {
+                    self.st.hit(Pr::sp_px);
+                    if n <= 16 {
+                        self.st.hit(Pr::sp_px_narrow);
+                    }
+                }
                 let was_poisoned = self.poisoned;
                 if was_poisoned {
                     self.st.hit(Pr::acc_after_poison);
@@ -750,6 +756,9 @@ impl<'a, S: Sut> Runner<'a, S> {
                     self.st.hit(Pr::load_minpos);
                 } else if mag == qt.maxpos() {
                     self.st.hit(Pr::load_maxpos);
+                }
+                if crate::sut::px_width(qt, &[p]).is_some() {
+                    self.st.hit(Pr::load_px);
                 }
                 match catch(|| S::load(p, *via)) {
                     Ok(q) => self.a = q,
